@@ -267,3 +267,44 @@ def r8(ctx):
            f"({[x for x in [e.name for e in bad.effects][[e.name for e in bad.effects].index('--other thread: app.close()') + 1:] if x in ('WebSocket()', 'appsock.connect', 'on_reconnect', 'on_open', 'on_close')]})",
            loc, {"path": path_text(bad, 12)} if bad else None)
 
+
+@rule("R-C15-9", min_instances=3, title="external dispatcher: the callbacks it is given (read, check) turn every abnormal loss into handleDisconnect themselves -- nothing escapes into the external loop, where no library frame could catch it")
+def r9(ctx):
+    """An external dispatcher (rel) calls read() and check() later, from its own loop: an exception leaving them is outside
+    run_forever's handlers.  With the built-in dispatcher the same exceptions travel up to setSock's handler instead."""
+    from .c13 import READ
+    from .c16 import CHECK
+    idx = ctx.index
+    hd_stub = {f"{RF}.handleDisconnect": lambda I, run, a, k, n: (run.effect("handleDisconnect", a, k, node=n), NONE)[1]}
+    # the losses the property names: end of stream, reset (a receive timeout is not one of them)
+    losses = (CLOSED_EXC, "builtins.ConnectionResetError")
+    from ..appmodel import frame_source
+    for exc in losses:
+        I = Interp(idx, Config(stubs=sock_stubs(frame_source((), (exc,)), extra=hd_stub)))
+
+        def closure(run):
+            app = mk_app(I, run, keep_running=TRUE, sock=mk_sock(run))
+            return closure_env(run, app, reconnect=C(5), custom_dispatcher=TRUE)
+
+        outs = ctx.count_paths(I.explore_call(READ, lambda run: ([], {}), closure))
+        bad = [o for o in outs if o.kind == "raise" or "handleDisconnect" not in [e.name for e in o.effects]]
+        name = exc.split(".")[-1].split(":")[-1]
+        ctx.ob(f"{READ}:external-dispatcher:{name}", not bad and bool(outs), "routed to handleDisconnect" if not bad else
+               f"with an external dispatcher a receive that fails with {name} makes read() end as {bad[0].kind} {bad[0].exc_class or bad[0].value!r} "
+               f"(handleDisconnect called: {'handleDisconnect' in [e.name for e in bad[0].effects]}): the loss escapes into the external loop and no reconnect is scheduled",
+               bad[0].raise_loc or idx.loc(idx.func(READ).node) if bad else idx.loc(idx.func(READ).node), {"path": path_text(bad[0])} if bad else None)
+    # ping/pong timeout detected by check()
+    st = sock_stubs(extra=dict(hd_stub, **{"time.time": lambda I, run, a, k, n: C(1000.0)}))
+    I = Interp(idx, Config(stubs=st))
+
+    def closure2(run):
+        app = mk_app(I, run, keep_running=TRUE, sock=mk_sock(run), ping_timeout=C(10.0), last_ping_tm=C(100.0), last_pong_tm=C(50.0))
+        return closure_env(run, app, reconnect=C(5), custom_dispatcher=TRUE)
+
+    outs = ctx.count_paths(I.explore_call(CHECK, lambda run: ([], {}), closure2))
+    bad = [o for o in outs if o.kind == "raise" or "handleDisconnect" not in [e.name for e in o.effects]]
+    ctx.ob(f"{CHECK}:external-dispatcher:ping-timeout", not bad and bool(outs), "routed to handleDisconnect" if not bad else
+           f"with an external dispatcher an expired ping makes check() end as {bad[0].kind} {bad[0].exc_class or bad[0].value!r}: the timeout is raised inside the "
+           f"external loop's timer callback and never reaches handleDisconnect (no on_error, no reconnect)", bad[0].raise_loc or idx.loc(idx.func(CHECK).node) if bad else "",
+           {"path": path_text(bad[0])} if bad else None)
+
